@@ -552,7 +552,10 @@ pub fn main(seed: u64, tier: &str, only: Option<&str>) {
     for case in 0..n {
         let mut rng = Rng::new(seed ^ 0xd3a2f, case as u64);
         let mut g = if case % 3 == 0 { GenCfg::mvp() } else { GenCfg::random(&mut rng) };
-        g.export_all_funcs = true;
+        let v = [Variant::Unchanged, Variant::Unchanged, Variant::Inserted, Variant::Gc][(case / 3) % 4];
+        // (in the GC variant some functions have to be dead, or the pass removes nothing and the
+        // debug info of removed functions is never looked at)
+        g.export_all_funcs = v != Variant::Gc || case % 8 == 3;
         g.import_mem64 = false;
         g.big_offsets = false;
         g.extern_elem_global = false;
@@ -562,7 +565,6 @@ pub fn main(seed: u64, tier: &str, only: Option<&str>) {
         let (wasm, _) = gen::gen_valid(&mut rng, &g);
         let version = if case % 2 == 0 { 4 } else if case % 6 == 5 { 55 } else { 5 };
         let span = [1usize, 1, 2, 3][(case / 2) % 4] + [0usize, 0, 0, 100, 200][case % 5];
-        let v = [Variant::Unchanged, Variant::Unchanged, Variant::Inserted, Variant::Gc][(case / 3) % 4];
         run_case(&format!("d{}", case), &wasm, version, span, v, &mut stats);
     }
     let shapes: &[(usize, usize)] = if tier == "thorough" { &[(1, 10), (2, 126), (2, 127), (2, 128), (2, 129), (127, 10), (128, 10), (129, 10), (300, 16383), (300, 16384)] } else { &[(1, 10), (2, 127), (2, 128), (127, 10), (128, 10)] };
